@@ -31,7 +31,7 @@ def fresh_worktree():
 def demo_dest(d):
     notes = open(os.path.join(d, "notes.md")).read() if os.path.exists(os.path.join(d, "notes.md")) else ""
     demo = sorted([f for f in os.listdir(d) if f.endswith(".go")], key=lambda f: (f != "demo_test.go", f))
-    m = re.search(r'cp \S*demo\S*\.go\s+/tmp/seed[2345]?-[a-z0-9]+/(\S+?\.go)', notes)
+    m = re.search(r'cp \S*demo\S*\.go\s+/tmp/seed[23456]?-[a-z0-9]+/(\S+?\.go)', notes)
     if m:
         return demo, m.group(1)
     m = re.search(r'cp \S*demo\S*\.go\s+((?:internal|pkg|cmd)/\S+?\.go)', notes)
